@@ -3,7 +3,7 @@
 use crate::vhelp::*;
 use crate::vspec as sp;
 
-// @ob id=S1.1 props=C16 tier=quick kind=lemma fn="spec: s_between,s_line" desc="closed forms of between/line equal the coordinate definitions for all 64x64 pairs and every test square"
+// @ob id=S1.1 props=C16 tier=quick kind=lemma cache=yes fn="spec: s_between,s_line" desc="closed forms of between/line equal the coordinate definitions for all 64x64 pairs and every test square"
 #[kani::proof]
 fn spec_between_line() {
     let (a, b, t) = (any_sq_u8(), any_sq_u8(), any_sq_u8());
@@ -11,7 +11,7 @@ fn spec_between_line() {
     assert!(sp::has(sp::s_line(a, b), t) == sp::s_is_on_line(a, t, b));
 }
 
-// @ob id=S1.2 props=C15,C01,C03 tier=quick kind=lemma fn="spec: s_rook_moves_lf,s_bishop_moves_lf" desc="loop-free occluded-fill slider attacks equal the ray walks for all squares and all 2^64 occupancies"
+// @ob id=S1.2 props=C15,C01,C03 tier=quick kind=lemma cache=yes fn="spec: s_rook_moves_lf,s_bishop_moves_lf" desc="loop-free occluded-fill slider attacks equal the ray walks for all squares and all 2^64 occupancies"
 #[kani::proof]
 #[kani::unwind(9)]
 fn spec_fill_equals_walk() {
@@ -33,7 +33,7 @@ pub fn any_pos() -> sp::Pos {
     p
 }
 
-// @ob id=S1.3 props=C01,C03 tier=quick kind=lemma fn="spec: s_attacked,s_attackers" desc="attack detection by flood fill FROM the attackers equals attack detection by walking rays FROM the target, for all consistent placements, targets, colours and blocker sets"
+// @ob id=S1.3 props=C01,C03 tier=quick kind=lemma cache=yes deps=any_pos fn="spec: s_attacked,s_attackers" desc="attack detection by flood fill FROM the attackers equals attack detection by walking rays FROM the target, for all consistent placements, targets, colours and blocker sets"
 #[kani::proof]
 #[kani::unwind(9)]
 fn spec_attacked_two_ways() {
